@@ -13,11 +13,11 @@ Proof. exact protocol_hash_inj. Qed.
 Print Assumptions c30_hash_binds_both_fields.
 
 (* the two filters of getSolicitEntries / resolveMatch, read as constraints *)
-Theorem c30_admits_meaning : forall l s,
-  admits l s = true <->
+Theorem c30_allows_meaning : forall l s,
+  allows l s = true <->
   (s_peer s = [] \/ s_peer s = l_remote l) /\ (s_tpt s = 0 \/ s_tpt s = l_tpt l).
-Proof. exact admits_spec. Qed.
-Print Assumptions c30_admits_meaning.
+Proof. exact allows_spec. Qed.
+Print Assumptions c30_allows_meaning.
 
 (* two solicitations at the two ends of one link are matched exactly when they
    name the same protocol ID and the same context and each side's peer and
@@ -26,7 +26,7 @@ Print Assumptions c30_admits_meaning.
 Theorem c30_matched_iff : forall la lb a b,
   ends_of_one_link la lb -> wf_sol a -> wf_sol b ->
   (matched la a lb b = true <->
-   s_pid a = s_pid b /\ s_ctx a = s_ctx b /\ admits la a = true /\ admits lb b = true).
+   s_pid a = s_pid b /\ s_ctx a = s_ctx b /\ allows la a = true /\ allows lb b = true).
 Proof. exact matched_iff. Qed.
 Print Assumptions c30_matched_iff.
 
